@@ -31,7 +31,7 @@ type c13L struct {
 }
 
 func init() {
-	steps := []string{"sessionless", "discovery", "open", "rakp1", "rakp3", "insession", "close", "sdr-info", "sdr-reserve", "sdr-get1", "sdr-get2", "sdr-get3", "sdr-get4", "sdr-final", "wrongpw", "close2", "after-expired"}
+	steps := []string{"sessionless", "discovery", "open", "rakp1", "rakp3", "insession", "close", "sdr-info", "sdr-reserve", "sdr-get1", "sdr-get2", "sdr-get3", "sdr-get4", "sdr-final", "wrongpw", "close2", "after-expired", "suites-idx1", "suites-idx2"}
 	faults := []string{"blackhole", "late", "garbage", "tempcode", "trunc", "ffrun", "drop-once", "repo-modified", "runts", "close-inflight"}
 	register(&Check{
 		ID:      "C13",
@@ -52,7 +52,8 @@ func init() {
 						if f == "repo-modified" && (len(st) != 8 || st[:7] != "sdr-get") {
 							continue // the repository can only change under a retrieval
 						}
-						if tier == "quick" && (fi+ri+len(st))%3 != int(seed%3+3)%3 && !(f == "repo-modified" && ri != 2 && st == "sdr-get3") && !(st == "wrongpw" && f == "blackhole" && ri < 2) && !(f == "drop-once" && ri == 2 && (st == "sdr-get2" || st == "sdr-get4" || st == "discovery")) {
+						if tier == "quick" && (fi+ri+len(st))%3 != int(seed%3+3)%3 && !(f == "repo-modified" && ri != 2 && st == "sdr-get3") && !(st == "wrongpw" && f == "blackhole" && ri < 2) && !(f == "drop-once" && ri == 2 && (st == "sdr-get2" || st == "sdr-get4" || st == "discovery")) &&
+							!((st == "suites-idx1" || st == "suites-idx2") && (f == "blackhole" && ri != 1 || f == "tempcode" && ri == 2 || f == "garbage" && ri == 2)) {
 							continue
 						}
 						cs = append(cs, ev.MkCase("udp", c13P{Step: st, Fault: f, Timeout: rt[0], Deadline: rt[1], Seed: seed}))
@@ -140,6 +141,9 @@ func c13Match(step string, b *refbmc.BMC, getCount *int) bool {
 		return e.Kind == "sessionless-ipmi" && e.Cmd == 0x37
 	case "discovery":
 		return e.Kind == "sessionless-ipmi" && e.Cmd == 0x54
+	case "suites-idx1", "suites-idx2":
+		// the enumeration has already been answered for the earlier list indices, whose chunks end on a record boundary
+		return e.Kind == "sessionless-ipmi" && e.Cmd == 0x54 && len(e.Data) == 3 && int(e.Data[2]&0x3f) >= int(step[len(step)-1]-'0')
 	case "open":
 		return e.Kind == "open"
 	case "rakp1":
@@ -178,6 +182,9 @@ func c13UDP(run *ev.Run, p c13P, cs ev.Case) (string, func()) {
 	repo := c13Repo(r)
 	cssrv := &refbmc.CipherSuiteServer{Channel: 1, Data: refbmc.EncodeSuiteRecords([]refbmc.SuiteRecord{{ID: 0x81, OEM: true, IANA: 0x00b4e2, Auth: 1, Integs: []byte{1, 2}, Confs: []byte{1}}, {ID: 3, Auth: 1, Integs: []byte{1}, Confs: []byte{1}},
 		{ID: 0xff, Auth: 2, Integs: []byte{2}, Confs: []byte{1}}, {ID: 17, Auth: 3, Integs: []byte{4}, Confs: []byte{1}}, {ID: 0xc0, OEM: true, IANA: 0x000157, Auth: 3, Integs: []byte{4}, Confs: []byte{1, 2, 3}}})}
+	if p.Step == "suites-idx1" || p.Step == "suites-idx2" {
+		cssrv.Data = c13AlignedSuites()
+	}
 	b.Handler = refbmc.Chain(repo.Handle, cssrv.Handle, refbmc.Fixed(6, 0x37, 0, rbytes(r, 16)),
 		refbmc.Fixed(6, 0x01, 0, []byte{0x20, 0x81, 0x03, 0x15, 0x02, 0xbf, 0x57, 0x01, 0x00, 0x34, 0x12}), refbmc.Fixed(6, 0x3c, 0, nil))
 	srv, err := udpbmc.Listen(b)
@@ -332,6 +339,8 @@ func c13UDP(run *ev.Run, p c13P, cs ev.Case) (string, func()) {
 				_, callErr = st.GetSystemGUID(ctx)
 			case "discovery", "open", "rakp1", "rakp3", "wrongpw":
 				_, callErr = st.NewV2Session(ctx, opts)
+			case "suites-idx1", "suites-idx2":
+				_, callErr = bmc.RetrieveSupportedCipherSuites(ctx, st)
 			case "insession":
 				_, callErr = sess.GetDeviceID(ctx)
 			case "close", "close2":
@@ -457,6 +466,9 @@ func c13Mem(run *ev.Run, l c13L, cs ev.Case) {
 		cssrv.Data = refbmc.EncodeSuiteRecords([]refbmc.SuiteRecord{{ID: 0x81, OEM: true, IANA: 0x00b4e2, Auth: 1, Integs: []byte{1, 2}, Confs: []byte{1}}, {ID: 3, Auth: 1, Integs: []byte{1}, Confs: []byte{1}},
 			{ID: 0xff, Auth: 2, Integs: []byte{2}, Confs: []byte{1}}, {ID: 17, Auth: 3, Integs: []byte{4}, Confs: []byte{1}}})
 	}
+	if l.Step == "suites-idx1" || l.Step == "suites-idx2" {
+		cssrv.Data = c13AlignedSuites()
+	}
 	if l.Step == "wrongpw" {
 		opts.Password = append(append([]byte(nil), opts.Password...), 0x78)
 	}
@@ -488,6 +500,8 @@ func c13Mem(run *ev.Run, l c13L, cs ev.Case) {
 			_, callErr = st.GetSystemGUID(ctx)
 		case "discovery", "open", "rakp1", "rakp3", "wrongpw":
 			_, callErr = st.NewV2Session(ctx, opts)
+		case "suites-idx1", "suites-idx2":
+			_, callErr = bmc.RetrieveSupportedCipherSuites(ctx, st)
 		case "insession":
 			_, callErr = sess.GetDeviceID(ctx)
 		case "close", "close2":
@@ -546,6 +560,15 @@ func c13Mem(run *ev.Run, l c13L, cs ev.Case) {
 			return
 		}
 	}
+}
+
+// c13AlignedSuites is an advertisement of 16+16+13 bytes whose first and second 16-byte chunks
+// each end on a record boundary (5+5+6 and 6+10), so that a prefix of whole chunks parses.
+func c13AlignedSuites() []byte {
+	return refbmc.EncodeSuiteRecords([]refbmc.SuiteRecord{
+		{ID: 1, Auth: 1, Integs: []byte{0}, Confs: []byte{0}}, {ID: 2, Auth: 1, Integs: []byte{1}, Confs: []byte{0}}, {ID: 3, Auth: 1, Integs: []byte{1, 2}, Confs: []byte{1}},
+		{ID: 8, Auth: 2, Integs: []byte{2}, Confs: []byte{1, 2}}, {ID: 0x81, OEM: true, IANA: 0x00b4e2, Auth: 1, Integs: []byte{1, 2}, Confs: []byte{1, 2}},
+		{ID: 17, Auth: 3, Integs: []byte{4}, Confs: []byte{1}}, {ID: 0xc0, OEM: true, IANA: 0x000157, Auth: 3, Integs: []byte{4}, Confs: []byte{1}}})
 }
 
 // c13FFRun is a datagram that claims to be authenticated and ends in a long
